@@ -3144,3 +3144,282 @@ func ruleBootstrapSorted(e *Engine, r *Report) {
 	})
 	r.floor("DET-bootstrap-sorted", n, 2)
 }
+
+// ruleStreamValidatorLookahead (C14): the V2 stream validator checks a block
+// only out of its own buffer and only while at least two full blocks are
+// buffered: the last (possibly partial) block and the 16-byte tail can only
+// be told apart at the end of the stream, so nothing that may contain them
+// is ever validated as a block on arrival.
+func ruleStreamValidatorLookahead(e *Engine, r *Report) {
+	add := r.need("(*internal/rsm.v2validator).AddChunk")
+	blockF := r.needField("internal/rsm", "v2validator", "block")
+	if add == nil || blockF == nil {
+		return
+	}
+	vb := r.helper("(*internal/rsm.v2validator).validateBlock")
+	raw := e.Func("internal/rsm.validateBlock")
+	lenOfBlock := func(v ssa.Value) bool {
+		v = stripConv(v)
+		c, ok := v.(*ssa.Call)
+		if !ok {
+			return false
+		}
+		b, ok := c.Call.Value.(*ssa.Builtin)
+		return ok && b.Name() == "len" && len(c.Call.Args) == 1 && fieldV(blockF)(c.Call.Args[0])
+	}
+	n := 0
+	forEachCall(add, func(s ssa.CallInstruction) {
+		isV := false
+		for _, g := range []*ssa.Function{vb, raw} {
+			if g != nil {
+				if c, ok := s.(*ssa.Call); ok && e.CallsTo(c, g) {
+					isV = true
+				}
+			}
+		}
+		if !isV {
+			return
+		}
+		n++
+		r.guard("GD-validator-lookahead", "block validation in "+fname(add)+" #"+itoa(n), s.(ssa.Instruction),
+			reqCmp("len(v.block) >= (two full blocks)", ">=", lenOfBlock, func(v ssa.Value) bool {
+				_, isConst := v.(*ssa.Const)
+				return !isConst // the block-size expression, not a literal such as 0
+			}))
+	})
+	r.floor("GD-validator-lookahead", n, 1)
+}
+
+// ruleExternalFileSize (C14): the size recorded for an external snapshot
+// file is the size of the file content (Stat, which follows links), the
+// number of bytes the transport will read and send.
+func ruleExternalFileSize(e *Engine, r *Report) {
+	pf := r.need("(*internal/rsm.Files).PrepareFiles")
+	fs := r.needField("raftpb", "SnapshotFile", "FileSize")
+	if pf == nil || fs == nil {
+		return
+	}
+	n := 0
+	forEachInstr(pf, func(in ssa.Instruction) {
+		st, ok := in.(*ssa.Store)
+		if !ok {
+			return
+		}
+		f, _, ok := fieldOfAddr(st.Addr)
+		if !ok || f != fs {
+			return
+		}
+		n++
+		names := map[string]bool{}
+		e.dependsOn(st.Val, func(x ssa.Value) bool {
+			if c, ok := x.(*ssa.Call); ok {
+				if c.Call.IsInvoke() {
+					names[c.Call.Method.Name()] = true
+				} else if sc := c.Call.StaticCallee(); sc != nil {
+					names[sc.Name()] = true
+				}
+			}
+			return false
+		}, 0)
+		r.check(names["Stat"] && !names["Lstat"], "DEP-external-file-size", "SnapshotFile.FileSize in PrepareFiles comes from Stat of the linked file", e.ipos(in),
+			"the recorded size is the size of the content that will be sent", "the recorded size of an external file does not come from Stat (following links): for a linked file it is not the number of bytes that will be read and sent")
+	})
+	r.floor("DEP-external-file-size", n, 1)
+}
+
+// ruleChunkDescribesSnapshot (C15): every chunk built by the sender carries
+// the index and term of the snapshot it belongs to (not of the message or
+// the sender's current term), and the receiver's notification copies them
+// back from the chunk.
+func ruleChunkDescribesSnapshot(e *Engine, r *Report) {
+	n := 0
+	for _, fld := range []string{"Index", "Term"} {
+		cf := r.needField("raftpb", "Chunk", fld)
+		sf := r.needField("raftpb", "Snapshot", fld)
+		if cf == nil || sf == nil {
+			continue
+		}
+		for _, w := range e.FieldWrites(cf) {
+			if (w.Kind != "init" && w.Kind != "store") || fnPkg(w.Fn) != e.pkgTypes("internal/transport") || !e.IsLive(outermostFn(w.Fn)) {
+				continue
+			}
+			// zero initialisation of a literal is not a value
+			if c, isC := w.Val.(*ssa.Const); isC && (c.Value == nil || c.Value.ExactString() == "0") {
+				continue
+			}
+			n++
+			ok := e.dependsOn(w.Val, func(v ssa.Value) bool { return fieldV(sf)(v) }, 0)
+			r.check(ok, "DEP-chunk-describes-snapshot", "Chunk."+fld+" set in "+fname(w.Fn), e.ipos(w.Instr),
+				"taken from the snapshot being sent", "a chunk's "+fld+" is not taken from the snapshot being sent: the receiver's InstallSnapshot notification describes a snapshot that does not exist")
+		}
+	}
+	r.floor("DEP-chunk-describes-snapshot", n, 4)
+}
+
+// rulePoisonBlocking (C17): the poison chunk that ends a streaming job is
+// delivered or the job is known to have failed/stopped: every select that
+// sends on the job's channel has no default branch.
+func rulePoisonBlocking(e *Engine, r *Report) {
+	add := r.need("(*internal/transport.job).AddChunk")
+	if add == nil {
+		return
+	}
+	n := 0
+	forEachInstr(add, func(in ssa.Instruction) {
+		sel, ok := in.(*ssa.Select)
+		if !ok {
+			return
+		}
+		sends := false
+		for _, st := range sel.States {
+			if st.Dir == types.SendOnly {
+				if f, _, ok := loadedField(st.Chan); ok && f.Name() == "ch" {
+					sends = true
+				}
+			}
+		}
+		if !sends {
+			return
+		}
+		n++
+		r.check(sel.Blocking, "MPT-job-chunk-delivered", "send on job.ch in "+fname(add)+" #"+itoa(n)+" blocks until delivered, failed or stopped", e.ipos(in),
+			"no default branch", "a chunk (the poison chunk included) is dropped when the job's window is full: the stream neither completes nor fails and the remote stays in the snapshot state")
+	})
+	r.floor("MPT-job-chunk-delivered", n, 1)
+}
+
+// ruleUpdateCarriesEntriesToSave (C19): every Update carries the entries
+// that still have to be saved, whatever else it carries (a snapshot
+// included): entries are handed out for apply only after they were handed
+// out for persistence.
+func ruleUpdateCarriesEntriesToSave(e *Engine, r *Report) {
+	gu := r.need("(*internal/raft.Peer).getUpdate")
+	ets := r.need("(*internal/raft.entryLog).entriesToSave")
+	fld := r.needField("raftpb", "Update", "EntriesToSave")
+	if gu == nil || ets == nil || fld == nil {
+		return
+	}
+	isStore := func(in ssa.Instruction) bool {
+		st, ok := in.(*ssa.Store)
+		if !ok {
+			return false
+		}
+		f, _, ok := fieldOfAddr(st.Addr)
+		return ok && f == fld && e.dependsOn(st.Val, e.callV(ets), 0)
+	}
+	res := e.findPath(gu, nil, func(in ssa.Instruction) bool { return e.isSuccessReturn(in) }, isStore, nil)
+	r.check(!res.Found, "MPT-update-entries-to-save", "Peer.getUpdate sets EntriesToSave from entriesToSave() on every path", e.pos(gu.Pos()),
+		"unconditional", "an Update can be produced without the entries that still have to be saved (e.g. when it carries a snapshot): committed entries among them are applied before they are persisted", res.Trace(e)...)
+}
+
+// ruleFirstIndexSnapshotFirst (C19): the first index of the raft log view is
+// defined by the pending in-memory snapshot whenever there is one; the log
+// reader's range is consulted only when there is none.
+func ruleFirstIndexSnapshotFirst(e *Engine, r *Report) {
+	fi := r.need("(*internal/raft.entryLog).firstIndex")
+	gsi := r.need("(*internal/raft.inMemory).getSnapshotIndex")
+	gr := r.needMethod("internal/raft", "ILogDB", "GetRange")
+	if fi == nil || gsi == nil || gr == nil {
+		return
+	}
+	n := 0
+	forEachInstr(fi, func(in ssa.Instruction) {
+		ret, ok := in.(*ssa.Return)
+		if !ok {
+			return
+		}
+		fromReader := e.dependsOn(retOperand(ret, 0), func(v ssa.Value) bool {
+			c, ok := v.(*ssa.Call)
+			return ok && e.IsMethodCall(c, gr)
+		}, 0)
+		if !fromReader {
+			return
+		}
+		n++
+		r.guard("GD-firstindex-snapshot", "firstIndex answered from the log reader's range", in,
+			reqBool("there is no pending in-memory snapshot (getSnapshotIndex ok is false)", func(v ssa.Value) bool {
+				ex, ok := v.(*ssa.Extract)
+				if !ok || ex.Index != 1 {
+					return false
+				}
+				c, ok := ex.Tuple.(*ssa.Call)
+				return ok && e.CallsTo(c, gsi)
+			}, false))
+	})
+	r.floor("GD-firstindex-snapshot", n, 1)
+}
+
+// ruleImportedAlwaysRecovered (C20): on the initial recovery an imported
+// snapshot is always loaded into an on-disk state machine, whatever index
+// the state machine reports: the import replaces the history.
+func ruleImportedAlwaysRecovered(e *Engine, r *Report) {
+	rr := r.need("(*internal/rsm.StateMachine).recoverRequired")
+	imp := r.needField("raftpb", "Snapshot", "Imported")
+	if rr == nil || imp == nil {
+		return
+	}
+	var initP *ssa.Parameter
+	for _, p := range rr.Params {
+		if bt, ok := p.Type().Underlying().(*types.Basic); ok && bt.Kind() == types.Bool {
+			initP = p
+		}
+	}
+	if initP == nil {
+		r.undecided("GD-imported-recovered", fname(rr), "initial-recovery flag parameter not found")
+		return
+	}
+	exempt := reqAny("not the initial recovery, or not an imported snapshot",
+		reqBool("", func(v ssa.Value) bool { return v == ssa.Value(initP) }, false),
+		reqBool("", fieldV(imp), false))
+	res := e.pathUnless(rr, nil, func(in ssa.Instruction) bool {
+		ret, ok := in.(*ssa.Return)
+		if !ok {
+			return false
+		}
+		cb, isC := isConstBool(retOperand(ret, 0))
+		return !(isC && cb)
+	}, nil, exempt)
+	r.check(!res.Found, "GD-imported-recovered", "recoverRequired answers true for an imported snapshot on initial recovery", e.pos(rr.Pos()),
+		"no path with (init, Imported) returns anything but true", "an imported snapshot can be skipped on the initial recovery of an on-disk state machine: the replica keeps its old state under the imported index and membership", res.Trace(e)...)
+}
+
+// ruleTanRemoveAllFirst (C09, C20): when a node's data is removed from a Tan
+// db (import, node removal) its index is cleared before anything asks which
+// log files are still in use: otherwise the node's own old files stay
+// referenced and its old entries come back after a reopen.
+func ruleTanRemoveAllFirst(e *Engine, r *Report) {
+	ral := r.need("(*internal/tan.db).removeAllLocked")
+	ra := r.need("(*internal/tan.nodeIndex).removeAll")
+	inUse := r.need("(*internal/tan.nodeIndex).fileInUse")
+	if ral == nil || ra == nil || inUse == nil {
+		return
+	}
+	isRA := func(in ssa.Instruction) bool {
+		c, ok := in.(*ssa.Call)
+		return ok && e.CallsTo(c, ra)
+	}
+	n := 0
+	forEachCall(ral, func(s ssa.CallInstruction) {
+		reach := false
+		for _, g := range e.Callees(s) {
+			if g == inUse || e.Reach([]*ssa.Function{g}, nil)[inUse] {
+				reach = true
+			}
+		}
+		if !reach {
+			return
+		}
+		n++
+		o, _ := e.alwaysPrecededBy(s.(ssa.Instruction), isRA, 0)
+		r.check(o, "MPT-tan-removeall-first", "file-in-use query in removeAllLocked #"+itoa(n)+" runs after the node's index was cleared", e.ipos(s),
+			"the removed node no longer pins its files", "removeAllLocked asks which files are in use before clearing the removed node's index: its own files stay in the manifest and its old entries return after a reopen")
+	})
+	// every path clears the index before the version edit is applied
+	la := e.Func("(*internal/tan.versionSet).logAndApply")
+	if la != nil {
+		for _, s := range e.SitesIn(ral, la) {
+			o, _ := e.alwaysPrecededBy(s.(ssa.Instruction), isRA, 0)
+			r.check(o, "MPT-tan-removeall-first", "removeAllLocked clears the node's index before applying the version edit", e.ipos(s), "removeAll precedes logAndApply", "the version edit is applied without clearing the node's index first")
+		}
+	}
+}
